@@ -8,5 +8,7 @@ export CARGO_NET_OFFLINE=true
 (cd lean && lake build Rngs modeldriver)
 (cd harness && RUSTFLAGS="--cfg rngs_verif --check-cfg cfg(rngs_verif)" cargo build --offline --profile tie)
 (cd harness && RUSTFLAGS="--cfg rngs_verif --check-cfg cfg(rngs_verif)" CARGO_TARGET_DIR="$(pwd)/target-jlog" cargo build --offline --profile tie --features jlog)
+(cd harness && RUSTFLAGS="--cfg rngs_verif --check-cfg cfg(rngs_verif)" cargo build --offline --profile release)
+(cd harness && RUSTFLAGS="--cfg rngs_verif --check-cfg cfg(rngs_verif)" CARGO_TARGET_DIR="$(pwd)/target-noserde" cargo build --offline --profile release --no-default-features)
 python3 tools/exttie.py /repo | head -3
 echo setup-ok
